@@ -2,8 +2,18 @@
 C15 implementation op: the whole public pipeline on one corpus in one process:
 create_event_file -> filter_event_file -> cues_outcomes -> ndl.ndl / dict_ndl ->
 activation, every intermediate artefact returned.
+
+op `pipeline_writer`: the second head of the statement ("... or the event
+writer"): events -> io.events_to_file(container, compression, compatible) ->
+io.events_from_file -> cues_outcomes -> ndl.ndl / dict_ndl -> activation.  A
+gzip file is handed to every consumer as its path.  A plain file
+(compression=None) can only be read by io.events_from_file(compression=None)
+- the counter and the learners document a *gzipped* event file - so there the
+consumers get the reader's generator and the counting stage is skipped.
 """
+import contextlib
 import gzip
+import io as _io
 import os
 import shutil
 import tempfile
@@ -13,7 +23,7 @@ import numpy as np
 import impl
 from impl import fl, rat, POLICY, da_to_result, dict_to_result
 import impl_create
-from pyndl import preprocess, count, ndl, activation
+from pyndl import preprocess, count, ndl, activation, io
 
 
 def _lines(path):
@@ -38,6 +48,12 @@ def _side(side, which):
 
 
 def op_pipeline(t):
+    # X1: with t['verbose'] every stage that has the flag gets verbose=True (output captured in memory)
+    with contextlib.redirect_stdout(_io.StringIO()):
+        return _pipeline(t, {'verbose': True} if t.get('verbose') else {})
+
+
+def _pipeline(t, vkw):
     d = tempfile.mkdtemp(prefix='c15-', dir=os.getcwd())
     try:
         c = t['create']
@@ -53,17 +69,17 @@ def op_pipeline(t):
             kw['event_options'] = tuple(c['options'])
         res = {'stage': 'create'}
         try:
-            preprocess.create_event_file(corpus, ev, **kw)
+            preprocess.create_event_file(corpus, ev, **kw, **vkw)
             res['event_lines'] = _lines(ev)
             res['stage'] = 'filter'
             fk = {}
             fk.update(_side(t['filter'].get('cues'), 'cues'))
             fk.update(_side(t['filter'].get('outcomes'), 'outcomes'))
             preprocess.filter_event_file(ev, flt, n_jobs=int(t['filter'].get('n_jobs', 1)),
-                                         chunksize=int(t['filter'].get('chunksize', 100000)), **fk)
+                                         chunksize=int(t['filter'].get('chunksize', 100000)), **fk, **vkw)
             res['filtered_lines'] = _lines(flt)
             res['stage'] = 'count'
-            n, cues, outs = count.cues_outcomes(flt, n_jobs=int(t.get('count_jobs', 2)))
+            n, cues, outs = count.cues_outcomes(flt, n_jobs=int(t.get('count_jobs', 2)), **vkw)
             res['n_events'] = n
             res['cue_counts'] = sorted(cues.items())
             res['outcome_counts'] = sorted(outs.items())
@@ -75,12 +91,12 @@ def op_pipeline(t):
                 return res
             if L['learner'] == 'dict_ndl':
                 w = ndl.dict_ndl(flt, fl(L['alpha']), (fl(L['beta1']), fl(L['beta2'])), fl(L['lambda']),
-                                 remove_duplicates=pol, make_data_array=True)
+                                 remove_duplicates=pol, make_data_array=True, **vkw)
             else:
                 w = ndl.ndl(flt, fl(L['alpha']), (fl(L['beta1']), fl(L['beta2'])), fl(L['lambda']),
                             method=L['learner'][4:], n_jobs=int(L.get('n_jobs', 2)),
                             n_outcomes_per_job=int(L.get('per_job', 10)), remove_duplicates=pol,
-                            events_per_temporary_file=int(L.get('per_file', 10000000)))
+                            events_per_temporary_file=int(L.get('per_file', 10000000)), **vkw)
             res['weights'] = da_to_result(w)
             res['number_events_attr'] = w.attrs['number_events'].strip()
             res['stage'] = 'activation'
@@ -97,4 +113,85 @@ def op_pipeline(t):
         shutil.rmtree(d, ignore_errors=True)
 
 
-OPS = {'pipeline': op_pipeline}
+def _container(kind, events):
+    if kind == 'lists':
+        return [[list(c), list(o)] for c, o in events]
+    if kind == 'tuples':
+        return tuple((list(c), list(o)) for c, o in events)
+    if kind == 'strings':
+        return [['_'.join(c), '_'.join(o)] for c, o in events]
+    if kind == 'generator':
+        return ((list(c), list(o)) for c, o in events)
+    if kind == 'dataframe':
+        import pandas as pd
+        return pd.DataFrame({'cues': ['_'.join(c) for c, _ in events], 'outcomes': ['_'.join(o) for _, o in events]},
+                            columns=['cues', 'outcomes'], dtype=object)
+    raise RuntimeError('bad container')
+
+
+def _raw_text(path, compression):
+    """the characters of the file, no newline translation (the harness' own reader)"""
+    data = gzip.open(path, 'rb').read() if compression == 'gzip' else open(path, 'rb').read()
+    return data.decode('utf-8')
+
+
+def op_pipeline_writer(t):
+    with contextlib.redirect_stdout(_io.StringIO()):
+        return _pipeline_writer(t, {'verbose': True} if t.get('verbose') else {})
+
+
+def _pipeline_writer(t, vkw):
+    d = tempfile.mkdtemp(prefix='c15w-', dir=os.getcwd())
+    cd = impl.CallDir()
+    try:
+        compression = t.get('compression')
+        gz = compression == 'gzip'
+        path = os.path.join(d, 'events.tab' + ('.gz' if gz else ''))
+        res = {'stage': 'write'}
+
+        def source():
+            # what a consumer is given: the path of a gzip file, else the reader's generator
+            return path if gz else io.events_from_file(path, compression=None)
+        try:
+            io.events_to_file(_container(t['container'], t['events']), path, compression=compression,
+                              compatible=bool(t.get('compatible')))
+            res['content'] = _raw_text(path, compression)
+            before = impl.sha(path)
+            res['stage'] = 'read'
+            res['read_events'] = [[list(c), list(o)] for c, o in io.events_from_file(path, compression=compression)]
+            if gz:
+                res['stage'] = 'count'
+                n, cues, outs = count.cues_outcomes(path, n_jobs=int(t.get('count_jobs', 2)), **vkw)
+                res['n_events'] = n
+                res['cue_counts'] = sorted(cues.items())
+                res['outcome_counts'] = sorted(outs.items())
+            res['stage'] = 'learn'
+            L = t['learn']
+            pol = POLICY[L['policy']]
+            if L['learner'] == 'dict_ndl':
+                w = ndl.dict_ndl(source(), fl(L['alpha']), (fl(L['beta1']), fl(L['beta2'])), fl(L['lambda']),
+                                 remove_duplicates=pol, make_data_array=True, **vkw)
+            else:
+                w = ndl.ndl(source(), fl(L['alpha']), (fl(L['beta1']), fl(L['beta2'])), fl(L['lambda']),
+                            method=L['learner'][4:], n_jobs=int(L.get('n_jobs', 2)),
+                            n_outcomes_per_job=int(L.get('per_job', 10)), remove_duplicates=pol,
+                            events_per_temporary_file=int(L.get('per_file', 10000000)), **vkw)
+            res['weights'] = da_to_result(w)
+            res['number_events_attr'] = w.attrs['number_events'].strip()
+            res['stage'] = 'activation'
+            a = activation.activation(source(), w, n_jobs=int(t.get('act_jobs', 1)), remove_duplicates=True)
+            vals = np.asarray(a.values)
+            res['activation_outcomes'] = [str(x) for x in a.coords['outcomes'].values.tolist()]
+            res['activations'] = [[rat(vals[i, e]) for i in range(vals.shape[0])] for e in range(vals.shape[1])]
+            res['stage'] = 'done'
+            res['file_unchanged'] = impl.sha(path) == before
+        except Exception as e:  # noqa
+            res.update(impl.err(e))
+        res['leftovers'] = cd.leftovers()
+        return res
+    finally:
+        cd.close()
+        shutil.rmtree(d, ignore_errors=True)
+
+
+OPS = {'pipeline': op_pipeline, 'pipeline_writer': op_pipeline_writer}
